@@ -14,6 +14,7 @@ EXPLANATION = (
     "every duration type a reader can produce is a key of LABEL_DURS; (F4d/F4e) the exporters call library functions with "
     "conforming arguments and read only attributes their isinstance-narrowed elements have; (F6-load) load_score maps each "
     "extension family to its reader, lower-cases the extension on every path and raises otherwise; (F8a/F7a)."
+    ' (ITER-local) the staff of each MEI chord note is assigned on every path of the loop round.'
 )
 NOT_DECIDED = [
     "what a given MEI/kern document denotes (parsing semantics of two formats: run-time)",
